@@ -875,6 +875,22 @@ func (c *evalCtx) call(n *Node) SV {
 			typeIDs[n.Args[1].Name] = id
 		}
 		return SV{T: eq(app("itype", a.T), fmt.Sprint(id)), Sort: "Bool"}
+	case "unbox":
+		// unbox(x, "type string"): the value inside the interface value x, viewed at that dynamic type (meaningful where isType(x, ...) holds)
+		a := c.eval(n.Args[0])
+		te, ok := c.env.(interface {
+			TypeByString(s string) (types.Type, bool)
+		})
+		if !ok || len(n.Args) != 2 || n.Args[1].Kind != "str" {
+			panic("unbox(x, \"type string\")")
+		}
+		ty, found := te.TypeByString(n.Args[1].Name)
+		if !found {
+			panic("unbox: unknown type " + n.Args[1].Name)
+		}
+		e := c.env.Enc()
+		f := e.DeclFun("unbox."+sanitize(typeKey(ty)), []string{"Iface"}, e.Sort(ty))
+		return SV{T: app(f, a.T), Ty: ty}
 	case "implements":
 		a := c.eval(n.Args[0])
 		f := e.DeclFun("implements."+sanitize(n.Args[1].Name), []string{"Int"}, "Bool")
